@@ -273,8 +273,65 @@ fn bitvec_of(b: &[u8], n: u64) -> BitVec {
 }
 
 /// `Option<T>` for the Rust types a leaf / list-of-leaf component has
+/// a hand-written copy of what the generator emits for
+/// `SEQUENCE { n INTEGER (..) OPTIONAL, l SEQUENCE OF INTEGER (..) OPTIONAL }`, with the derive the crate offers:
+/// `Option<PeqInner>` is the one place where `protobuf_eq` of two PRESENT values differs from `==`
+#[derive(ProtobufEq, PartialEq, Default, Debug, Clone)]
+struct PeqInner {
+    n: Option<u64>,
+    l: Option<Vec<u64>>,
+}
+
+fn peq_inner_of(ty: &Sx, v: &Val) -> Option<PeqInner> {
+    let (h, args) = head(ty)?;
+    let fields = args.get(3..)?;
+    if h != "seq" || fields.len() != 2 {
+        return None;
+    }
+    let (k0, t0) = field_parts(&fields[0])?;
+    let (k1, t1) = field_parts(&fields[1])?;
+    let elem_int = match head(t1)? {
+        ("seqof", a) => head(a.get(3)?)?.0 == "int",
+        _ => false,
+    };
+    if k0 != "o" || k1 != "o" || head(t0)?.0 != "int" || !elem_int {
+        return None;
+    }
+    let xs = match v {
+        Val::Seq(xs) if xs.len() == 2 => xs,
+        _ => return None,
+    };
+    let n = match &xs[0] {
+        Val::None => None,
+        Val::Some(b) => match &**b {
+            Val::Int(i) if *i >= 0 => Some(*i as u64),
+            _ => return None,
+        },
+        _ => return None,
+    };
+    let l = match &xs[1] {
+        Val::None => None,
+        Val::Some(b) => match &**b {
+            Val::List(items) => Some(
+                items
+                    .iter()
+                    .map(|x| if let Val::Int(i) = x { if *i >= 0 { Some(*i as u64) } else { None } } else { None })
+                    .collect::<Option<Vec<u64>>>()?,
+            ),
+            _ => return None,
+        },
+        _ => return None,
+    };
+    Some(PeqInner { n, l })
+}
+
 fn opt_peq(ty: &Sx, a: Option<&Val>, b: Option<&Val>) -> Option<bool> {
     let (h, args) = head(ty)?;
+    if h == "seq" {
+        let x = match a { Some(v) => Some(peq_inner_of(ty, v)?), None => None };
+        let y = match b { Some(v) => Some(peq_inner_of(ty, v)?), None => None };
+        return Some(ProtobufEq::protobuf_eq(&x, &y));
+    }
     macro_rules! go {
         ($conv:expr) => {{
             let x = match a { Some(v) => Some($conv(v)?), None => None };
